@@ -70,7 +70,7 @@ LeafStmt(lf, d) == IF lf.k = "enterraise" THEN With(Cm(d, TRUE, "none", FALSE), 
 (* teelse), except+finally (tef..), except+else+finally (teef..) -- and body and else of both loops can  *)
 (* hold the hole.                                                                                        *)
 Contexts == { "forbody", "forelse", "foriter", "foriterE", "whilebody", "whileelse", "ifthen",
-              "tfbody", "tffin", "tffinexc", "tffinret",
+              "tfbody", "tffin", "tffinexc", "tffinret", "finloopcont",
               "tebody1", "tebody2", "tebody3", "tehandler", "tehandleras", "tehandlerre", "tehandlerloop", "teelse",
               "loophandlerre", "tefbody", "tefhandler", "teffin",
               "teefbody", "teefhandler", "teefelse", "teeffin",
@@ -96,6 +96,18 @@ Wrap(c, d, x) ==
     [] c = "tffin"     -> Try(<< Mk(d, 1) >>, <<>>, <<>>, << Mk(d, 5), x, Mk(d, 6) >>)
     [] c = "tffinexc"  -> Try(<< Mk(d, 1), RaiseS("KeyError") >>, <<>>, <<>>, << Mk(d, 5), x, Mk(d, 6) >>)
     [] c = "tffinret"  -> Try(<< Mk(d, 1), Simple("ret") >>, <<>>, <<>>, << Mk(d, 5), x, Mk(d, 6) >>)
+    \* a loop whose body leaves a try by `continue`; while that continue is PENDING the finally clause runs an inner loop
+    \* whose body is a try/finally holding the hole: whatever way the hole is left (continue, break, falling off ...)
+    \* and however the inner finally runs, the outer continue still goes to the OUTER loop's next iteration afterwards
+    \* (found missing by an independently seeded change: the target of a pending continue kept in a register that the
+    \* finally body's own continue overwrites)
+    [] c = "finloopcont" ->
+         For("range", << Mk(d, 1),
+                         Try(<< Mk(d, 2), Simple("cont") >>, <<>>, <<>>,
+                             << Mk(d, 5),
+                                For("range", << Mk(d, 9), Try(<< Mk(d, 10), x, Mk(d, 11) >>, <<>>, <<>>, << Mk(d, 12) >>), Mk(d, 13) >>, <<>>),
+                                Mk(d, 6) >>),
+                         Mk(d, 3) >>, << Mk(d, 4) >>)
     [] c = "tebody1"   -> Try(B(d, x), << H(<<"LookupError">>, FALSE, << Mk(d, 7) >>) >>, << Mk(d, 4) >>, <<>>)
     [] c = "tebody2"   -> Try(B(d, x), << H(<<"ValueError">>, FALSE, << Mk(d, 7) >>),
                                           \* tuple: one member matches exactly (KeyError), one only by inheritance (ZeroDivisionError from an __exit__),
